@@ -77,6 +77,26 @@ def oracle(c, impl_res):
 SPEC_IS_ORACLE = True  # the model answers are consequences of the theorems (uids_unique, scope_uid_is_allocated, uid_in_install)
 
 
+def fresh_process_stress(rounds):
+    """16 threads released together perform the FIRST allocations of a fresh process (round 5: the counter moved into a lazily built
+    singleton whose initialisation was not re-checked under the lock - several first compilations returned uid 1)"""
+    res = []
+    for k in range(rounds):
+        r = core.run_impl(["UID 0 stress 16 %d" % (40 + k)], extra_env={"PHARNESS_UID_BUMP": "0"}).get("0", "NOANSWER")
+        res.append(r)
+    return res
+
+
+def extra(ctx):
+    res = fresh_process_stress(120 if ctx.thorough else 24)
+    bad = [r for r in res if not r.startswith("UNIQUE ")]
+    fails = []
+    if bad:
+        fails.append({"property": "C17", "kind": "failing-input", "case": "UID 0 stress 16 40  (first allocations of a fresh process, PHARNESS_UID_BUMP=0, 16 threads released together)",
+                      "observed": bad[0], "expected": "UNIQUE (C17.uids_unique: every interleaving returns distinct uids)", "failing_runs": len(bad), "runs": len(res)})
+    return fails, {"fresh_process_first_allocation_races": {"runs": len(res), "with_duplicates": len(bad)}}
+
+
 def on_build_fail(ctx, err):
     """the proof obligation about the generated allocation code no longer checks: search for a failing schedule"""
     if "C17" not in err and "UidOp" not in err and "generated_is_single_rmw" not in err:
@@ -87,6 +107,11 @@ def on_build_fail(ctx, err):
     try:
         core.build_harness()
         stress = core.run_impl(["UID %d stress 16 %d" % (k, 200000 + k) for k in range(10)])
+    except core.Fail:
+        pass
+    try:
+        for k, v in enumerate(fresh_process_stress(24)):
+            stress["fresh-process-%d" % k] = v
     except core.Fail:
         pass
     dup = [v for v in stress.values() if v.startswith("DUP")]
